@@ -2176,7 +2176,7 @@ class UTPM(Ring, RawAlgorithmsMixIn):
             # allocate temporary storage
             L0inv = numpy.linalg.inv(L.data[0,p])
             U0inv = numpy.linalg.inv(U.data[0,p])
-            dF    = numpy.zeros((N,N),dtype=float)
+            dF    = numpy.zeros((N,N),dtype=numpy.promote_types(A.data.dtype, float))
 
             for d in range(1,D):
                 dF *= 0
@@ -2232,7 +2232,7 @@ class UTPM(Ring, RawAlgorithmsMixIn):
             # allocate temporary storage
             L0inv = numpy.linalg.inv(L.data[0,p])
             U0inv = numpy.linalg.inv(U.data[0,p])
-            dF    = numpy.zeros((N,N),dtype=float)
+            dF    = numpy.zeros((N,N),dtype=numpy.promote_types(A.data.dtype, float))
 
             for d in range(1,D):
                 dF *= 0
